@@ -150,6 +150,14 @@ def run(ctx):
         ctx.check("C12.R3", "a definition taken from the name table is itself processed (references inside it are inlined too)", bool(from_table), helper.where(), "_inline_definitions: definition from named_schemas returned without recursion", "a chain Parent -> Child -> Grandchild of separately parsed pieces leaves 'Grandchild' undefined in the header")
         ok = any(isinstance(n, ast.If) and "in defined" in norm(n.test) for n in walk_local(helper.node)) and any(norm(n) == "defined.add(fullname)" for n in walk_local(helper.node) if isinstance(n, ast.Expr))
         ctx.check("C12.R3", "each name is defined once in the header (set of names defined so far)", ok, helper.where(), "_inline_definitions: defined-so-far bookkeeping", "a type reachable twice would be defined twice (redefined named type on read)")
+    _r4(ctx, a)
+
+
+def _r4(ctx, a):
+    from .c08 import reader_drop_discipline
+
+    ctx.rule("C12.R4", "schemaless_reader drops the reader schema only under equality of the complete schemas given (name tables of parsed schemas included)", floor=4)
+    reader_drop_discipline(ctx, a, "C12.R4")
 
 
 def _assigned_from(f, name, param):
